@@ -266,6 +266,12 @@ func (m *Markdown) renderHTMLBlock(w io.Writer, n *ast.HTMLBlock, src []byte) er
 			return err
 		}
 	}
+	// the line that ends the block (</pre>, -->, ...) is kept apart from the other lines
+	if n.HasClosure() {
+		if _, err := w.Write(n.ClosureLine.Value(src)); err != nil {
+			return err
+		}
+	}
 	return nil
 }
 
